@@ -708,6 +708,7 @@ type vMainBrowser struct {
 	origin *url.URL
 	remote string
 	ever   map[string]string // every cookie (name=value) the jar ever held
+	host   string            // Host header sent to the proxy when it differs from the origin (reverse proxy in front)
 }
 
 func (e *vEnv) newBrowser(origin string) *vMainBrowser {
@@ -736,7 +737,11 @@ func (b *vMainBrowser) do(method, target string, headers [][2]string, body strin
 	if ch := b.cookieHeader(target); ch != "" {
 		hs = append(hs, [2]string{"Cookie", ch})
 	}
-	req, err := vRawRequest(vBuildRaw(method, target, b.origin.Host, hs, body))
+	hostHdr := b.origin.Host
+	if b.host != "" {
+		hostHdr = b.host
+	}
+	req, err := vRawRequest(vBuildRaw(method, target, hostHdr, hs, body))
 	if err != nil {
 		return &vResult{Status: -1, Header: http.Header{}, Body: err.Error()}
 	}
